@@ -88,7 +88,9 @@ for sid, (pkg, checks, needs) in SEEDS.items():
         continue
     prop, var = sid.split("-")
     print("#####", sid, flush=True)
-    p = subprocess.run(["python3", "/verif/tools/seedeval.py", prop, var, "--pkg", pkg, "--checks", checks], capture_output=True, text=True)
+    # changes written against the nesting guard as it was before the F18 repair rewrote it
+    base = {"C08-B": "a033c39~1", "C16-D": "a033c39~1"}.get(sid, "HEAD")
+    p = subprocess.run(["python3", "/verif/tools/seedeval.py", prop, var, "--pkg", pkg, "--checks", checks, "--base", base], capture_output=True, text=True)
     for l in p.stdout.splitlines():
         if l.startswith("== ") or l.strip().startswith("rule=") or '"confirmed"' in l:
             print(l[:240], flush=True)
